@@ -94,8 +94,15 @@ class ElectronicControlUnit:
         :param callback:
             The callback to be removed from the timer event list
         """
-        # modify the list in place, other threads may hold a reference to it
-        self._timer_events[:] = [event for event in self._timer_events if event['callback'] != callback]
+        # take the entries out one by one: rebuilding the list would undo what other threads
+        # (the job thread dropping an expired one-shot timer, add_timer) did to it meanwhile
+        for event in list(self._timer_events):
+            if event['callback'] == callback:
+                try:
+                    self._timer_events.remove( event )
+                except ValueError:
+                    # removed by someone else already
+                    pass
         self._job_thread_wakeup()
 
     def connect(self, *args, **kwargs):
@@ -327,9 +334,11 @@ class ElectronicControlUnit:
                         if next_wakeup > event['deadline']:
                             next_wakeup = event['deadline']
                     else:
-                        # remove from list (unless the callback has removed itself already)
-                        if event in self._timer_events:
+                        # remove from list (unless the callback or another thread has removed it already)
+                        try:
                             self._timer_events.remove( event )
+                        except ValueError:
+                            pass
 
             time_to_sleep = next_wakeup - time.time()
             if time_to_sleep > 0:
